@@ -270,6 +270,12 @@ func (c *Ctx) dependsOn(fn *ssa.Function, seeds ...ssa.Value) map[ssa.Value]bool
 							cells[a] = true
 							changed = true
 						}
+					case *ssa.IndexAddr:
+						// an element of a local array (the backing store of a variadic argument list)
+						if al, ok := a.X.(*ssa.Alloc); ok && !cells[al] {
+							cells[al] = true
+							changed = true
+						}
 					case *ssa.FieldAddr:
 						if k := c.P.FieldKey(a); k != "" && !fields[k] {
 							fields[k] = true
@@ -293,6 +299,11 @@ func (c *Ctx) dependsOn(fn *ssa.Function, seeds ...ssa.Value) map[ssa.Value]bool
 						hit = cells[a]
 					case *ssa.FieldAddr:
 						hit = fields[c.P.FieldKey(a)]
+					}
+				}
+				if sl, ok := in.(*ssa.Slice); ok && !hit {
+					if al, ok := sl.X.(*ssa.Alloc); ok && cells[al] {
+						hit = true
 					}
 				}
 				if !hit {
